@@ -96,6 +96,7 @@ func valueMenu() []val {
 	out = append(out, val{"float64(-0)", rv(math.Copysign(0, -1))}, val{"float32(-0)", rv(float32(math.Copysign(0, -1)))}, val{"float64(NaN)", rv(math.NaN())}, val{"float64(+Inf)", rv(math.Inf(1))})
 	out = append(out, val{"float32(0.1)", rv(float32(0.1))}, val{"float32(1.5)", rv(float32(1.5))}, val{"uint8(255)", rv(uint8(255))}, val{"int8(-128)", rv(int8(-128))})
 	out = append(out, val{`""`, rv("")})
+	out = append(out, val{"bool(false)", rv(false)}, val{"bool(true)", rv(true)}, val{`"0"`, rv("0")}, val{`"false"`, rv("false")})
 	// values whose clause alone is longer than 4 KiB / 8 KiB (the clause echoes the value)
 	out = append(out, val{"a x4100", rv(strings.Repeat("a", 4100))}, val{"1 x9000", rv(strings.Repeat("1", 9000))})
 	enum.Strings([]string{"a", "1", "中", " ", "/", "-", "."}, 3, func(s string) { out = append(out, val{fmt.Sprintf("%q", s), rv(s)}) })
@@ -317,7 +318,7 @@ func run(c *runner.Ctx) {
 	}
 	pairMenu := []string{"required", "to=1~3", "gt=2", "eq=2", "in=(a/1/中)", "phone", "int", "re='^a+$'", "date", "prefix=a", "unique", "json"}
 	if true { // the larger pair menu on both tiers
-		pairMenu = append(pairMenu, "le=1", "noeq=1", "include=(a)", "email", "ip", "float", "ints", "suffix=1", "datetime", "oto=0~4")
+		pairMenu = append(pairMenu, "in=(0/1/2)", "in=(false/0/-0)", "le=1", "noeq=1", "include=(a)", "email", "ip", "float", "ints", "suffix=1", "datetime", "oto=0~4")
 	}
 	for i, a := range pairMenu {
 		for j, b := range pairMenu {
